@@ -716,8 +716,8 @@ func perms(n int, limit int) [][]int {
 
 type enumOpts struct {
 	permLimit int
-	full      bool // full cross product of the policy dimensions
-	addrs     []string
+	full      bool     // full cross product of the policy dimensions (first address kind)
+	addrs     []string // coinbase address kinds; the 2nd.. use the reduced policy product
 }
 
 // policies derives the policy list for the unit from the reference weight W of
@@ -931,8 +931,12 @@ func runUnit(r *ev.Run, w *world, ps poolSpec, o enumOpts) {
 	if len(u.rejected) > 0 {
 		r.Add("submissions_rejected_by_the_pool", int64(len(u.rejected)))
 	}
-	for _, addr := range o.addrs {
-		pols, W, S, probeErr := u.policies(addr, o)
+	for ai, addr := range o.addrs {
+		oa := o
+		if ai > 0 {
+			oa.full = false
+		}
+		pols, W, S, probeErr := u.policies(addr, oa)
 		_ = S
 		if probeErr != "" && !w.Reorg {
 			// reported through the regular path below (first policy reproduces it)
@@ -1106,7 +1110,7 @@ func main() {
 		"other_policy_values":   map[string]interface{}{"BlockPrioritySize": "0, W/2, 1,000,000", "TxMinFreeFee": "0, 1000, 100,000,000", "BlockMinWeight": "0, W/2, W+1000", "BlockMaxSize": "999,000; S and S-1 together with BlockMaxWeight 2,000,000"},
 		"policy_cross_product":  map[bool]string{true: "full", false: "max_weight x {prio 0, W/2} x {(minfree,minweight) in (0,0),(1000,0),(1000,W+1000),(1e8,W/2)} plus each remaining value once with a non-binding max weight"}[uOpts.full],
 		"source_orders":         fmt.Sprintf("all permutations while n! <= %d, else identity, reverse, two rotations, interleaved", uOpts.permLimit),
-		"coinbase_address":      uOpts.addrs,
+		"coinbase_address":      fmt.Sprintf("%v (the first with the policy product named above, the others with the reduced product); constructed pools: %v", uOpts.addrs, cOpts.addrs),
 		"jobs":                  len(jobs),
 		"extra_nonce_values":    "1 (CheckConnectBlockTemplate on the fresh chain); 2^32+5 through ProcessBlock on a second fresh chain (thorough: every distinct template; quick: templates with <= 1 pool tx)",
 		"distinct_blocks_validated_on_fresh_chains": countVal(),
